@@ -573,6 +573,12 @@ def ev_truth(ctx, fr, e):
 
 
 def truth_of(ctx, fr, v):
+    from vf.e1 import ops as _o
+    if isinstance(v, (HeapSet, PinMap, HeapData, _o.SDict)):
+        from vf.e1.calls import h_len
+        return GT(raw_int(h_len(ctx, fr, [v], {})), 0)
+    if isinstance(v, (BoundMethod, RefMethod, SymMethod, Closure)):
+        return True
     t = truth(v)
     if isinstance(t, str) and t == "local":
         from vf.e1 import ops
